@@ -309,8 +309,10 @@ func (fx *c17fx) buildTxs(vc *ceremony.ValidationCeremony) {
 		case "empty":
 			add(types.SubmitLongAnswersTx, 3, nil) // accepted by validateSubmitLongAnswersTx in epoch 0; decoded payload is nil
 		case "emptyobj":
-			// the same transaction as the node that created it holds it (dna_sendTransaction with payload "0x" gives a
-			// non-nil empty slice); never generated, replay only (see the final report of the C17 builder)
+			// the transaction object as the node that created it holds it (dna_sendTransaction with payload "0x" gives a
+			// non-nil empty slice) and includes it in its own proposal; node X is that node, the reference node decodes the
+			// block from the wire (nil payload).  Valid on a chain in epoch 0 only (validateSubmitLongAnswersTx); an empty
+			// short-answers payload is refused by validateSubmitShortAnswersTx and therefore never generated.
 			add(types.SubmitLongAnswersTx, 3, []byte{})
 		}
 		if sub.HasEvi {
@@ -650,21 +652,22 @@ func c17runCer(cs c17cer) (lines *c17lines, fails []c17failure, evals int, tags 
 				} else {
 					trans["eval:validated"] = true
 				}
-				// the rules, on X's result (missed flags from the clean node's statistics: same chain)
+				// the rules, on the clean node's result with its own statistics (X's result is either equal to it or already
+				// reported as differing)
 				for i, id := range cs.Ids {
 					if got.Panic != "" || ref.Panic != "" || ref.Missed == nil {
 						break
 					}
 					done := uint8(id.Flips) >= id.Required
 					missed := ref.Missed[i]
-					if !got.Failed {
-						trans[fmt.Sprintf("outcome:%d->%d", id.State, got.Ids[i].New)] = true
-						if sig, det := c17rules(state.IdentityState(id.State), state.IdentityState(got.Ids[i].New), done, missed); sig != "" {
+					if !ref.Failed {
+						trans[fmt.Sprintf("outcome:%d->%d", id.State, ref.Ids[i].New)] = true
+						if sig, det := c17rules(state.IdentityState(id.State), state.IdentityState(ref.Ids[i].New), done, missed); sig != "" {
 							fail(sig, fmt.Sprintf("step %d identity %d: %s", si, i, det))
 						}
-						l.add(fmt.Sprintf("id %d %s %s %d %d %d", id.State, b01(done), b01(missed), id.Birthday, got.Ids[i].New, got.Ids[i].Birthday), "ok")
-					} else if got.Ids[i].New != id.State {
-						fail("C17:failed-validation-changed-status", fmt.Sprintf("step %d identity %d: %d -> %d although validation failed", si, i, id.State, got.Ids[i].New))
+						l.add(fmt.Sprintf("id %d %s %s %d %d %d", id.State, b01(done), b01(missed), id.Birthday, ref.Ids[i].New, ref.Ids[i].Birthday), "ok")
+					} else if ref.Ids[i].New != id.State {
+						fail("C17:failed-validation-changed-status", fmt.Sprintf("step %d identity %d: %d -> %d although validation failed", si, i, id.State, ref.Ids[i].New))
 					}
 				}
 				if st.Op == "eval2" {
@@ -688,6 +691,12 @@ func c17emitCer(c *hx.Ctx, cs c17cer) error {
 	for _, t := range tags {
 		c.Hit("cer:" + t)
 	}
+	for _, sub := range cs.Subs {
+		if sub.Long == "emptyobj" {
+			c.Hit("cer:local-empty-payload-object")
+			break
+		}
+	}
 	seen := map[string]bool{}
 	for _, f := range fails {
 		if seen[f.sig] {
@@ -703,7 +712,21 @@ func c17emitCer(c *hx.Ctx, cs c17cer) error {
 				break
 			}
 		}
-		c.Fail(f.sig, det, c17case{Kind: "cer", Cer: &small})
+		sig := f.sig
+		if sig == "C17:evaluation-differs-from-clean-node" || sig == "C17:stale-epoch-cache-after-reorg" {
+			// does the difference come from a locally created empty payload object? (the same case with a nil payload agrees)
+			alt, has := small, false
+			alt.Subs = append([]c17sub{}, small.Subs...)
+			for i := range alt.Subs {
+				if alt.Subs[i].Long == "emptyobj" {
+					alt.Subs[i].Long, has = "empty", true
+				}
+			}
+			if has && !c17hasSig(alt, "C17:evaluation-differs-from-clean-node") && !c17hasSig(alt, "C17:stale-epoch-cache-after-reorg") {
+				sig = "C17:evaluation-differs-from-clean-node:local-empty-payload"
+			}
+		}
+		c.Fail(sig, det, c17case{Kind: "cer", Cer: &small})
 	}
 	return nil
 }
@@ -833,6 +856,9 @@ func c17genCer(c *hx.Ctx) c17cer {
 		}
 		if sub.Long == "empty" && cs.Epoch != 0 {
 			sub.Long = "garbage"
+		}
+		if cs.Epoch == 0 && r.Intn(5) == 0 {
+			sub.Hash, sub.Short, sub.Long, sub.BadHash = true, "ok", "emptyobj", false // created and proposed by node X itself
 		}
 		if r.Intn(5) != 0 {
 			sub.HasEvi = true
